@@ -62,7 +62,11 @@ fn gate_specs(r: &mut Rng) -> (String, Vec<usize>) {
         "BaseSumGate8" => vec![r.range(1, 21)],
         "BaseSumGate16" => vec![r.range(1, 15)],
         "ConstantGate" => vec![r.range(1, 6)],
-        "CosetInterpolationGate" => vec![r.range(1, 4)],
+        "CosetInterpolationGate" => {
+            // (subgroup bits, degree bound): the builder instantiates the gate with a bound below 2^bits, which adds intermediate wires
+            let bits = r.range(1, 4);
+            vec![bits, r.range(2, 1 << bits)]
+        }
         "ExponentiationGate" => vec![r.range(1, 66)],
         "RandomAccessGate" => {
             // (bits, num_wires, num_routed_wires, num_constants): copies follow from the row width
@@ -449,6 +453,19 @@ fn standalone<G: Gate<F, D>>(case: &Case, rep: &mut Report, mk: &dyn Fn() -> G, 
 /// Evaluator lock-step over another extension degree (the gates are generic in D; Goldilocks also has a quartic and a
 /// quintic extension): the extension evaluator returns exactly `num_constraints()` values and the base-batch evaluator
 /// agrees with it on base-field rows.
+/// The gate as `with_max_degree` (crate-private) builds it: the smallest degree with the same number of intermediates.
+fn coset_gate<const DD: usize>(p: &[usize]) -> CosetInterpolationGate<F, DD>
+where
+    F: Extendable<DD>,
+{
+    let mut g = CosetInterpolationGate::<F, DD>::new(p[0]);
+    let n_points = 1usize << p[0];
+    let max_degree = p.get(1).copied().unwrap_or(n_points).max(2);
+    let n_intermediates = (n_points - 2) / (max_degree - 1);
+    g.degree = (n_points - 2) / (n_intermediates + 1) + 2;
+    g
+}
+
 fn lockstep_other_degree<const DD: usize, G: Gate<F, DD>>(g: &G, r: &mut Rng) -> Result<(), String>
 where
     F: Extendable<DD>,
@@ -508,7 +525,7 @@ fn other_degrees(case: &Case, rep: &mut Report) {
         "ConstantGate" => both!(ConstantGate::new(p[0]), ConstantGate::new(p[0])),
         "ReducingGate" => both!(ReducingGate::<4>::new(p[0]), ReducingGate::<5>::new(p[0])),
         "ReducingExtensionGate" => both!(ReducingExtensionGate::<4>::new(p[0]), ReducingExtensionGate::<5>::new(p[0])),
-        "CosetInterpolationGate" => both!(CosetInterpolationGate::<F, 4>::new(p[0]), CosetInterpolationGate::<F, 5>::new(p[0])),
+        "CosetInterpolationGate" => both!(coset_gate::<4>(&p), coset_gate::<5>(&p)),
         "ExponentiationGate" => both!(ExponentiationGate::<F, 4>::new(p[0]), ExponentiationGate::<F, 5>::new(p[0])),
         "PoseidonGate" => both!(PoseidonGate::<F, 4>::new(), PoseidonGate::<F, 5>::new()),
         "PoseidonMdsGate" => both!(PoseidonMdsGate::<F, 4>::new(), PoseidonMdsGate::<F, 5>::new()),
@@ -536,7 +553,7 @@ fn exec_gate(case: &Case, rep: &mut Report) {
         "ReducingExtensionGate" => standalone(case, rep, &|| ReducingExtensionGate::<D>::new(p[0]), &none, false),
         "PoseidonMdsGate" => standalone(case, rep, &|| PoseidonMdsGate::<F, D>::new(), &none, false),
         "PoseidonGate" => standalone(case, rep, &|| PoseidonGate::<F, D>::new(), &|w: &mut Vec<F>, r: &mut Rng| w[24] = F::from_bool(r.chance(1, 2)), true),
-        "CosetInterpolationGate" => standalone(case, rep, &|| CosetInterpolationGate::<F, D>::new(p[0]), &|w: &mut Vec<F>, r: &mut Rng| {
+        "CosetInterpolationGate" => standalone(case, rep, &|| coset_gate::<D>(&p), &|w: &mut Vec<F>, r: &mut Rng| {
             if w[0] == F::ZERO {
                 w[0] = F::from_canonical_u64(1 + r.below(1 << 40));
             }
